@@ -569,6 +569,7 @@ func (ec *ExitClassifier) isBool() bool {
 }
 
 func (ec *ExitClassifier) maySucceed(v ssa.Value, at *ssa.BasicBlock, r *Reach, cut *Cut, seen map[ssa.Value]bool) bool {
+	v = ResolveSpill(v)
 	if seen[v] {
 		return false
 	}
@@ -762,4 +763,42 @@ func indexIn(in ssa.Instruction) int {
 		}
 	}
 	return -1
+}
+
+// ResolveSpill undoes go/ssa's spilling of results in functions with defers:
+// `*r = X; rundefers; t = *r; return t` yields X for t. Other values are
+// returned unchanged.
+func ResolveSpill(v ssa.Value) ssa.Value {
+	u, ok := v.(*ssa.UnOp)
+	if !ok || u.Op != token.MUL {
+		return v
+	}
+	a, ok := u.X.(*ssa.Alloc)
+	if !ok {
+		return v
+	}
+	b := u.Block()
+	var last ssa.Value
+	for _, in := range b.Instrs {
+		if in == ssa.Instruction(u) {
+			break
+		}
+		if st, ok := in.(*ssa.Store); ok && st.Addr == ssa.Value(a) {
+			last = st.Val
+		}
+	}
+	if last != nil {
+		return last
+	}
+	// single predecessor chain without stores in between
+	cur := b
+	for steps := 0; steps < 8 && len(cur.Preds) == 1; steps++ {
+		cur = cur.Preds[0]
+		for i := len(cur.Instrs) - 1; i >= 0; i-- {
+			if st, ok := cur.Instrs[i].(*ssa.Store); ok && st.Addr == ssa.Value(a) {
+				return st.Val
+			}
+		}
+	}
+	return v
 }
